@@ -355,7 +355,7 @@ func (v *PacketDslVisitorImpl) VisitLengthFieldDeclaration(ctx *gen.LengthFieldD
 	if ctx.Type_() != nil {
 		typ = ctx.Type_().GetText()
 	}
-	if v.BinModel.MetaDataMap[name] != (model.MetaData{}) {
+	if ctx.Type_() == nil && v.BinModel.MetaDataMap[name] != (model.MetaData{}) {
 		// If metadata exists, use its basic type
 		typ = v.BinModel.MetaDataMap[name].Attr.GetType()
 	}
@@ -383,7 +383,7 @@ func (v *PacketDslVisitorImpl) VisitCheckSumFieldDeclaration(ctx *gen.CheckSumFi
 	if ctx.Type_() != nil {
 		typ = ctx.Type_().GetText()
 	}
-	if v.BinModel.MetaDataMap[name] != (model.MetaData{}) {
+	if ctx.Type_() == nil && v.BinModel.MetaDataMap[name] != (model.MetaData{}) {
 		// If metadata exists, use its basic type
 		typ = v.BinModel.MetaDataMap[name].Attr.GetType()
 	}
